@@ -133,6 +133,7 @@ def task_cases(ctx, n):
     certs = os.path.join(vlib.REPO, 'certs', 'ca_chain')
     cases = [('tcp', 20, 70, 'rrrrcsr'), ('tcp', 20, 70, 'crcr'), (f'tls:{certs}', 20, 70, 'rcrcr'), ('tcp', 10, 10, 'rrs'), ('tcp', 20, 70, 's'),
              ('tcp', 20, 70, 'rrrrrr'), (f'tls:{certs}', 15, 100, 'cccc'), ('tcp', 5, 40, 'rrrrsrrrr'),
+             ('tcp', 20, 70, 'drr'), ('tcp', 20, 70, 'rdcdr'), ('tcp', 15, 100, 'ddd'),
              ('rtu', 20, 70, 'rrror'), ('rtu', 20, 70, 'oro'), ('rtu', 10, 40, 'rrrrr'), ('rtu', 20, 70, 'o'),
              ('rtuserver', 20, 70, 'rrror'), ('rtuserver', 20, 70, 'oro'), ('rtuserver', 10, 40, 'rrrrr'), ('rtuserver', 20, 70, 'o')]
     while len(cases) < n:
@@ -143,7 +144,7 @@ def task_cases(ctx, n):
         if w > 0.7:
             cases.append(('rtu' if w > 0.85 else 'rtuserver', mn, mx, ''.join(r.choices('ro', weights=(5, 2), k=ln))))
             continue
-        script = ''.join(r.choices('rc' if tls else 'rcs', weights=(5, 2) if tls else (5, 1, 2), k=ln))
+        script = ''.join(r.choices('rc' if tls else 'rcsd', weights=(5, 2) if tls else (5, 1, 2, 1), k=ln))
         cases.append((f'tls:{certs}' if tls else 'tcp', mn, mx, script))
     return cases
 
@@ -153,7 +154,10 @@ def task_to_coq(c):
     tls = variant.startswith('tls')
     evs, ops = [], []
     for ch in script:
-        if ch == 'r' or (tls and ch == 'c'):
+        if ch == 'd':
+            evs += ['AttemptFails', 'Interrupt']    # refused; the wait is abandoned by disable + enable
+            ops += ['Fail']
+        elif ch == 'r' or (tls and ch == 'c'):
             evs += ['AttemptFails', 'Elapsed']      # refused, or the TLS handshake fails: a failed connect
             ops += ['Fail']
         else:
@@ -191,7 +195,7 @@ def task_judge(i, b):
     """None, or (key, description)"""
     model, armed, spec = b.split('|')
     fields = [f for f in i.split(',') if f]
-    if any(not f or f[0] not in 'FD' or f[-1] not in '+-?' for f in fields):
+    if any(not f or f[0] not in 'FD' or f[-1] not in '+-?i' for f in fields):
         return ('task.unusable-result', f'harness result {i}')
     values = ','.join(f[1:-1] for f in fields)
     kinds = ','.join(f[:-1] for f in fields)
@@ -253,10 +257,12 @@ def run_task_level(ctx):
                       {'task_cases': [list(small)], 'impl': im[0], 'model|spec': bo[0], 'original_case': list(c)},
                       no_failing_input=(key == 'task.model-differs-from-impl'))
     ctx.oblige('correspondence:task-level-delays', bad == 0, f'{bad} of {len(cases)} scenarios differ')
-    tcls = {'tcp': 0, 'tls': 0, 'rtu': 0, 'rtuserver': 0, 'rtuserver_followed_script': 0, 'with_port_opened': 0, 'with_served': 0, 'with_accept_close': 0, 'three_refused_in_a_row': 0, 'capped': 0, 'announcements': 0}
+    tcls = {'with_disable_during_wait': 0, 'wait_abandoned_by_disable': 0, 'tcp': 0, 'tls': 0, 'rtu': 0, 'rtuserver': 0, 'rtuserver_followed_script': 0, 'with_port_opened': 0, 'with_served': 0, 'with_accept_close': 0, 'three_refused_in_a_row': 0, 'capped': 0, 'announcements': 0}
     for c, i in zip(cases, impl):
         tcls['tls' if c[0].startswith('tls') else c[0]] += 1
         tcls['with_port_opened'] += 'o' in c[3]
+        tcls['with_disable_during_wait'] += 'd' in c[3]
+        tcls['wait_abandoned_by_disable'] += any(f.endswith('i') for f in i.split(','))
         tcls['rtuserver_followed_script'] += c[0] == 'rtuserver' and actual_case(c, i)[3] == c[3]
         tcls['with_served'] += 's' in c[3]
         tcls['with_accept_close'] += 'c' in c[3]
